@@ -86,7 +86,8 @@ def normalise_free(act, exp, free):
     return dict(act, labs=labs, cells=cells.ravel().tolist()), ""
 
 
-VARIANTS = ["i", "f", "s", "mixed"]
+# "@0" variants: the smallest label of the scenario is 0 / 0.0 / '' (falsy labels)
+VARIANTS = ["i", "f", "s", "mixed", "i@0", "f@0", "s@0"]
 
 
 def replay(scn):
@@ -96,12 +97,17 @@ def replay(scn):
     for variant in VARIANTS:
         mixed = variant == "mixed"
         codec = A.LabelCodec(mixed=mixed)
+        if variant.endswith("@0"):
+            hs = [h for a in i["arrs"] for l in a["labs"] for h in l]
+            if not hs:
+                continue
+            codec = A.LabelCodec(offset=-min(hs), smin=min(hs))
         objs = []
         for k, a in enumerate(i["arrs"]):
-            kinds = [(("i" if k % 2 == 0 else "f") if mixed else variant)] * len(a["dims"])
+            kinds = [(("i" if k % 2 == 0 else "f") if mixed else variant[0])] * len(a["dims"])
             objs.append(A.gamma(a, codec, kinds))
         for form in ("list", "tuple", "datasets"):
-            if form == "datasets" and variant not in ("i", "s"):
+            if form == "datasets" and variant not in ("i", "s", "i@0"):
                 continue
             before = [A.snapshot(o) for o in objs]
             kw = dict(join=i["join"], sort=i["sort"])
